@@ -65,6 +65,7 @@ ARGS = {
     "opt_nz": A("Option<::core::num::NonZeroU32>", [("", "None", "0"), ("", "::core::num::NonZeroU32::new(u32::MAX)", "0")], "{p}.map(|v| v.get()).dig()"),
     "res": A("Result<u8, u32>", [("", "Ok(0u8)", "0"), ("", "Ok(255u8)", "0"), ("", "Err(0u32)", "0"), ("", "Err(u32::MAX)", "0")], "{p}.dig()"),
     "into": A("impl Into<u64>", [("", "7u8", "0"), ("", "70000u32", "0"), ("", "u64::MAX", "0")], "Into::<u64>::into({p}).dig()"),
+    "into2": A("impl Into<u64>", [("", "9u8", "0"), ("", "80000u32", "0"), ("", "1u64", "0")], "Into::<u64>::into({p}).dig()"),
     "s3": A("S3", [("", "S3 { a: 1, b: 2, c: 3 }", "0"), ("", "S3 { a: u8::MAX, b: u16::MAX, c: u64::MAX }", "0")], "{p}.dig()"),
     "mut_ref": A("&mut u64", [("let mut out@ = 11u64; sent(&out@ as *const u64);", "&mut out@", "out@"), ("let mut out@ = u64::MAX; sent(&out@ as *const u64);", "&mut out@", "out@")],
                  "dig_ref(&*{p})", effect="*{p} = {p}.wrapping_add(d | 1);", ref=True),
@@ -342,7 +343,7 @@ def emit_trait(t):
 
 # spelling variants of shapes that are already in the grammar: swept per receiver and per position in both tiers,
 # left out of the thorough cross products
-LIGHT_ARGS = {"opt_q", "res_q", "opt_str", "opt_slice"}
+LIGHT_ARGS = {"opt_q", "res_q", "opt_str", "opt_slice", "into2"}
 LIGHT_RETS = {"opt_q", "res_q", "int_q", "res_ie"}
 # only meaningful under a trait-level attribute: never enumerated on their own
 TRAIT_LEVEL_RETS = {"int_tl", "int_tl_alias"}
@@ -393,6 +394,9 @@ def build(tier):
                 add([Method("m", rc, ["u64"], r)], "recv=%s args=[u64] ret=%s" % (rc, r))
         for a in sorted(LIGHT_ARGS):
             add([Method("m", "mut", ["u64", a], "u64")], "recv=mut args=[u64,%s] ret=u64" % a)
+    # several converted (`impl Into<T>`) arguments with different values in one method: each keeps its own value and position
+    add([Method("m", "mut", ["into", "into2"], "u64")], "recv=mut args=[into,into2] ret=u64 (two converted arguments, different values)")
+    add([Method("m", "ref", ["into", "u64", "into2", "into"], "u64")], "recv=ref args=[into,u64,into2,into] ret=u64 (three converted arguments around a plain one)")
     # multi-method traits mixing receivers (both tiers)
     add([Method("ma", "ref", ["u64"], "u64"), Method("mb", "mut", ["slice_u8"], "opt_u64"), Method("mc", "own", ["u64"], "res")], "3 methods: ref/mut/own")
     add([Method("ma", "mut", ["str"], "unit"), Method("mb", "mut", ["str"], "unit"), Method("mc", "ref", [], "u64")], "3 methods, two with identical signatures + getter")
@@ -646,6 +650,23 @@ pub mod xv {
         #[vtbl_only]
         fn vo_name(&self) -> &str {
             "vo"
+        }
+    }
+    #[cglue_trait]
+    pub trait TMb {
+        fn mb_len(&self) -> usize;
+        // arguments re-bound with `mut` / patterns in default-bodied methods: lowered like plainly bound ones
+        fn mb_write(&mut self, mut buf: &[u8], mut line: &str, mut count: Option<u32>, mut fill: Result<u8, u8>) -> usize {
+            buf = &buf[..buf.len() / 2];
+            line = line.trim();
+            count = count.map(|c| c + 1);
+            fill = fill.map(|f| f + 1);
+            buf.len() + line.len() + count.unwrap_or(0) as usize + fill.unwrap_or(0) as usize
+        }
+        fn mb_out(&mut self, mut out: &mut [u64], mut n: u64) -> u64 {
+            n += out.len() as u64;
+            out = &mut out[..0];
+            n + out.len() as u64
         }
     }
     #[cglue_trait]
@@ -1016,6 +1037,76 @@ pub mod xj {
     }
 }
 
+/// hand-written structure member: traits that export NO method (a marker trait; a trait whose methods are all skipped, generic
+/// with a default body or without a receiver): the vtable is a C structure holding exactly zero function pointers
+pub mod xm {
+    #![allow(unused_variables, unused_mut, dead_code, clippy::all)]
+    use h_objbase::support::*;
+    use cglue::*;
+    use cglue::trait_group::GetVtblBase;
+    #[cglue_trait]
+    pub trait Marker {}
+    #[cglue_trait]
+    pub trait NothingExported {
+        #[skip_func]
+        fn helper(&self) -> usize {
+            7
+        }
+        fn visit<F: FnMut(usize)>(&self, mut f: F) {
+            f(self.helper())
+        }
+        fn describe() -> &'static str
+        where
+            Self: Sized,
+        {
+            "nothing"
+        }
+    }
+    #[cglue_trait]
+    pub trait OneM {
+        fn one(&self) -> usize;
+    }
+    pub struct MImp(pub usize);
+    impl Marker for MImp {}
+    impl NothingExported for MImp {}
+    impl OneM for MImp {
+        fn one(&self) -> usize {
+            self.0
+        }
+    }
+    cglue_trait_group!(TaggedM, OneM, { Marker, NothingExported });
+    cglue_impl_group!(MImp, TaggedM, { Marker });
+    pub const DESC: &str = "traits without exported methods (marker; only skipped / generic / receiver-less methods): vtable size 0, objects and groups built from them";
+    pub fn raw_check() -> Result<u64, (String, String)> {
+        let marker = trait_obj!(MImp(0) as Marker);
+        let nothing = trait_obj!(MImp(0) as NothingExported);
+        let one = trait_obj!(MImp(3) as OneM);
+        let sizes = [
+            ("Marker", ::core::mem::size_of_val(marker.get_vtbl_base()), 0usize),
+            ("NothingExported", ::core::mem::size_of_val(nothing.get_vtbl_base()), 0),
+            ("OneM", ::core::mem::size_of_val(one.get_vtbl_base()), ::core::mem::size_of::<usize>()),
+        ];
+        for (name, got, want) in sizes {
+            if got != want {
+                return Err(("vtable:size".into(), format!("vtable of {} is {} bytes, expected {} (one function pointer per exported method and nothing else)", name, got, want)));
+            }
+        }
+        if nothing.helper() != 7 || one.one() != 3 {
+            return Err(("objlayout:dispatch".into(), "objects of traits without exported methods do not work".into()));
+        }
+        let g = group_obj!(MImp(5) as TaggedM);
+        if g.one() != 5 || as_ref!(g impl Marker).is_none() || as_ref!(g impl NothingExported).is_some() {
+            return Err(("objlayout:dispatch".into(), "group with method-less optional traits: wrong dispatch / cast decision".into()));
+        }
+        // the opaque object is {vtable pointer, CBox {instance, drop_fn}}
+        let words = ::core::mem::size_of_val(&marker) / ::core::mem::size_of::<usize>();
+        if words != 3 {
+            return Err(("objlayout:size".into(), format!("object of a marker trait is {} words, expected 3", words)));
+        }
+        Ok(digest(&(sizes[0].1, sizes[1].1, sizes[2].1)))
+    }
+}
+
 /// hand-written structure member: several temporary-storage slots of mixed receiver kind; the temporary storage keeps the
 /// methods' declaration order (a `&mut self` method declared before two `&self` methods)
 pub mod xo2 {
@@ -1146,6 +1237,7 @@ def main():
             reg.append("        (900003, xo2::DESC, xo2::raw_check as fn() -> Result<u64, (String, String)>),")
             reg.append("        (900004, xi::DESC, xi::raw_check as fn() -> Result<u64, (String, String)>),")
             reg.append("        (900005, xj::DESC, xj::raw_check as fn() -> Result<u64, (String, String)>),")
+            reg.append("        (900006, xm::DESC, xm::raw_check as fn() -> Result<u64, (String, String)>),")
             chunks.append(HAND_O)
         reg.append("    ]")
         reg.append("}")
